@@ -100,6 +100,37 @@ def really_unhashable(k: Any, node=None):
     return AnalysisError(f"key {k!r} holds an analyser object that cannot be hashed")
 
 
+def dataclass_fields(repo, cls_qual: str):
+    """[(name, default expr | None, default_factory expr | None)] if the class is a @dataclass without an
+    explicit __init__, else None."""
+    try:
+        cls = repo.cls(cls_qual)
+    except Exception:
+        return None
+    decos = [dotted(d.func) if isinstance(d, ast.Call) else dotted(d) for d in cls.decorator_list]
+    if not any(d in ("dataclass", "dataclasses.dataclass") for d in decos):
+        return None
+    if any(isinstance(st, ast.FunctionDef) and st.name == "__init__" for st in cls.body):
+        return None
+    out = []
+    for st in cls.body:
+        if isinstance(st, ast.AnnAssign) and isinstance(st.target, ast.Name):
+            if "ClassVar" in ast.unparse(st.annotation):
+                continue
+            default = factory = None
+            if st.value is not None:
+                if isinstance(st.value, ast.Call) and dotted(st.value.func) in ("field", "dataclasses.field"):
+                    for k in st.value.keywords:
+                        if k.arg == "default":
+                            default = k.value
+                        elif k.arg == "default_factory":
+                            factory = k.value
+                else:
+                    default = st.value
+            out.append((st.target.id, default, factory))
+    return out
+
+
 class Inst:
     """Instance of a repository class."""
 
@@ -322,6 +353,27 @@ class Interp:
         init = self.facts.method(cls_qual, "__init__")
         if init and not init.startswith("ext:"):
             self.call_qual(init, inst, args, kwargs)
+            return inst
+        fields = dataclass_fields(self.repo, cls_qual)
+        if fields is not None:
+            # the constructor dataclasses synthesises: one parameter per annotated field, in order
+            names = [f[0] for f in fields]
+            if len(args) > len(names):
+                raise PyExc("TypeError", (f"{cls_qual}: too many positional arguments",))
+            given = dict(zip(names, args))
+            for k, v in kwargs.items():
+                if k not in names or k in given:
+                    raise PyExc("TypeError", (f"{cls_qual}: unexpected or repeated argument {k}",))
+                given[k] = v
+            for name, default, factory in fields:
+                if name in given:
+                    inst.attrs[name] = given[name]
+                elif default is not None:
+                    inst.attrs[name] = self.eval_const_expr(cls_qual, default)
+                elif factory is not None:
+                    inst.attrs[name] = self.eval_const_expr(cls_qual, ast.Call(func=factory, args=[], keywords=[]))
+                else:
+                    raise PyExc("TypeError", (f"{cls_qual}: missing argument {name}",))
         return inst
 
     def make_dict(self, cls_qual: str, args: list, kwargs: dict) -> HDict:
@@ -559,8 +611,18 @@ class Frame:
             self.env[t.id] = v
         elif isinstance(t, (ast.Tuple, ast.List)):
             items = self.iterate(v)
-            if any(isinstance(e, ast.Starred) for e in t.elts):
-                raise AnalysisError("starred assignment not supported")
+            stars = [i for i, e in enumerate(t.elts) if isinstance(e, ast.Starred)]
+            if stars:
+                i = stars[0]
+                after = len(t.elts) - i - 1
+                if len(items) < len(t.elts) - 1:
+                    raise PyExc("ValueError", (f"not enough values to unpack (expected at least {len(t.elts) - 1}, got {len(items)})",), t)
+                for e, x in zip(t.elts[:i], items[:i]):
+                    self.assign(e, x)
+                self.assign(t.elts[i].value, list(items[i : len(items) - after]))
+                for e, x in zip(t.elts[i + 1 :], items[len(items) - after :]):
+                    self.assign(e, x)
+                return
             if len(items) != len(t.elts):
                 raise PyExc("ValueError", (f"cannot unpack {len(items)} values into {len(t.elts)}",), t)
             for e, x in zip(t.elts, items):
